@@ -276,10 +276,12 @@ def m_tips(tree):
 
 
 def m_polytomy(tree):
-    def walk(nd):
-        return len(nd["kids"]) > 2 or any(walk(k) for k in nd["kids"])
+    """a node with more than two children below the root, or a root with more than three"""
 
-    return walk(tree)
+    def walk(nd, root):
+        return len(nd["kids"]) > (3 if root else 2) or any(walk(k, False) for k in nd["kids"])
+
+    return walk(tree, True)
 
 
 def m_newick(tree):
@@ -333,11 +335,11 @@ def _length(draw):
 
 @st.composite
 def _tree(draw, min_tips=3, max_tips=6):
-    n = draw(st.integers(min_tips, max_tips))
+    n = draw(st.sampled_from([k for k in (3, 4, 4, 5, 5, 6, 6) if min_tips <= k <= max_tips]))
     nodes = [{"name": f"t{i}", "len": draw(_length()), "kids": []} for i in range(n)]
     root_deg = draw(st.sampled_from([2, 3, 3, 4]))
     root_deg = min(root_deg, n)
-    poly = draw(st.integers(0, 2)) == 0
+    poly = draw(st.integers(0, 1)) == 0
     k = 0
     while len(nodes) > root_deg:
         size = 2
@@ -620,10 +622,16 @@ def _rows(aln, tips):
 
 
 def _dictarray(da, S):
-    d = da.to_dict()
+    """DictArray -> numpy array in harness state order (row / column labels are read from the object)"""
     import numpy
 
-    return numpy.array([[float(d[x][y]) for y in S] for x in S])
+    names = da.template.names
+    rows = [str(x) for x in names[0]]
+    cols = [str(x) for x in names[1]]
+    arr = numpy.asarray(da.array, float)
+    ri = [rows.index(x) for x in S]
+    ci = [cols.index(x) for x in S]
+    return arr[numpy.ix_(ri, ci)]
 
 
 def execute(case) -> Soft:
@@ -712,10 +720,6 @@ def execute(case) -> Soft:
     ok, alns = s.call("make_aligned_seqs", mk_alns)
     if not ok:
         return s
-    ok, _ = s.call("set_alignment", lambda: lf.set_alignment(alns if nloci > 1 else alns[0]))
-    if not ok:
-        return s
-
     # parameter names
     ok, pnames = s.call("get_param_names", lf.get_param_names)
     if not ok:
@@ -753,6 +757,11 @@ def execute(case) -> Soft:
     ok, _ = s.call("set_param_rule", setup)
     if not ok:
         return s
+    # motif probabilities are set before the alignment so that they are never estimated from (possibly all-degenerate) data
+    ok, _ = s.call("set_alignment", lambda: lf.set_alignment(alns if nloci > 1 else alns[0]))
+    if not ok:
+        return s
+
 
     # ---------------------------------------------------------------- model
     prot_S = None
@@ -783,8 +792,8 @@ def execute(case) -> Soft:
     bprobs = bins["bprobs"] if bins else [1.0]
 
     mkeys = list(NUCS) if pi_kind == "monomer" else S
-    total = 0.0
-    col_lh_by_locus = []
+    eigen_imprecise = False
+    pending = []  # (leaf vectors, [P per bin], root distribution) per locus; pruned once the P error is known
     qcache = {}
     evals = 0
     unequal_pi = False
@@ -814,7 +823,7 @@ def execute(case) -> Soft:
                     m[c, S.index(st_)] = 1.0
             leafvec[t] = m
 
-        lh_bins = []
+        P_bins = []
         for b in range(nb):
             P = {}
             for ename, ln, _ in edges:
@@ -838,7 +847,7 @@ def execute(case) -> Soft:
                                 circ = _q_circumstance(space, pi_kind, S[i], S[j], pars, user)
                                 s.fail(
                                     f"rate-matrix/{_family(name, user, space)}/{circ}",
-                                    f"{name} edge {ename} q[{S[i]}->{S[j]}] got {G[i, j]!r} want {W[i, j]!r}; params {dict(zip(pars, vals))} mprobs {_brief(mp)}",
+                                    f"{name} edge {ename} q[{S[i]}->{S[j]}] got {float(G[i, j])!r} want {float(W[i, j])!r}; params {dict(zip(pars, vals))} mprobs {_brief(mp)}",
                                 )
                             evals += 1
                 Q = qcache[key]
@@ -854,15 +863,35 @@ def execute(case) -> Soft:
                         s.notes["dP"] = max(s.notes.get("dP", 0.0), float(err.max()))
                         if not (err <= 2e-9).all():
                             i, j = numpy.unravel_index(int(numpy.argmax(err)), err.shape)
-                            s.fail(
-                                f"psub/{_family(name, user, space)}" + ("/bins" if bins else ""),
-                                f"{name} edge {ename} length {ln} bin {b} rate {float(brates[b])!r}: P[{S[i]}->{S[j]}] got {G[i, j]!r} want {Pe[i, j]!r}",
-                            )
+                            what = f"{name} edge {ename} length {ln} bin {b} rate {float(brates[b])!r}: P[{S[i]}->{S[j]}] got {float(G[i, j])!r} want {float(Pe[i, j])!r}"
+                            # one root cause gets one signature: the default exponentiator accepts an ill-conditioned eigendecomposition
+                            cond = float(numpy.linalg.cond(numpy.linalg.eig(Q)[1]))
+                            if case.get("expm") is None and float(err.max()) <= 1e-6 and cond > 1e5:
+                                eigen_imprecise = True
+                                s.fail("psub/eigen-precision", what + f"; cond(eigenvectors of Q) = {cond:.3g}, params {dict(zip(pars, vals))}")
+                            else:
+                                s.fail(f"psub/{_family(name, user, space)}" + ("/bins" if bins else ""), what)
                         evals += 1
-            lh_bins.append(prune(tree, leafvec, P, root_pi))
-        col = sum(w * lh for w, lh in zip(bprobs, lh_bins))
+            P_bins.append(P)
+        pending.append((leafvec, P_bins, root_pi))
+
+    # Pruning.  Every term of the sum-product is non-negative, so if each entry of P is known to within delta the column
+    # likelihood L is known to within L(P + delta) - L(P).  delta is twice the largest deviation between the reported and the
+    # harness P (itself limited to 2e-9 by the psub clause; 1e-6 when that clause already reported the eigen-precision
+    # circumstance, so that one root cause gives one signature) or 1e-15; this bound is the floating-point allowance of the
+    # lnL / column clauses, on top of 1e-9 relative.
+    delta = 2.0 * max(1e-15, min(s.notes.get("dP", 0.0), 1e-6 if eigen_imprecise else 2e-9))
+    total = 0.0
+    slack_total = 0.0
+    col_lh_by_locus = []
+    col_slack_by_locus = []
+    for leafvec, P_bins, root_pi in pending:
+        col = sum(w * prune(tree, leafvec, P, root_pi) for w, P in zip(bprobs, P_bins))
+        hi = sum(w * prune(tree, leafvec, {e: M + delta for e, M in P.items()}, root_pi) for w, P in zip(bprobs, P_bins))
         col_lh_by_locus.append(col)
+        col_slack_by_locus.append(hi - col)
         total += float(numpy.log(col).sum())
+        slack_total += float(((hi - col) / col).sum())
 
     # bin rates as reported
     if config in ("gamma", "free"):
@@ -877,7 +906,8 @@ def execute(case) -> Soft:
     ok, lnL = s.call("lnL", lambda: lf.lnL)
     if ok:
         s.notes["dlnL"] = abs(float(lnL) - total) / max(1.0, abs(total))
-        s.close(lnL, total, f"lnL/{fam}/{circ}", f"{name} {m_newick(tree)} config {config}", rtol=1e-9)
+        s.notes["lnL_margin"] = abs(float(lnL) - total) / (1e-9 * max(1.0, abs(total)) + 2.0 * slack_total)
+        s.close(lnL, total, f"lnL/{fam}/{circ}", f"{name} {m_newick(tree)} config {config}", rtol=1e-9, atol=2.0 * slack_total)
         evals += 1
     for li in range(nloci):
         lkw = {"locus": locus_names[li]} if nloci > 1 else {}
@@ -890,10 +920,12 @@ def execute(case) -> Soft:
             s.fail("get_full_length_likelihoods/shape", f"{type(e).__name__}: {e}")
             continue
         want = [float(x) for x in col_lh_by_locus[li]]
+        slack = [float(x) for x in col_slack_by_locus[li]]
         if not s.eq(len(fl), len(want), "get_full_length_likelihoods/length", f"{name}"):
             continue
         s.notes["dcol"] = max([s.notes.get("dcol", 0.0)] + [abs(g - w) / abs(w) for g, w in zip(fl, want) if w > 0])
-        bad = [(c, g, w) for c, (g, w) in enumerate(zip(fl, want)) if not abs(g - w) <= 1e-8 * abs(w)]
+        s.notes["col_margin"] = max([s.notes.get("col_margin", 0.0)] + [abs(g - w) / (1e-9 * w + 2.0 * e) for g, w, e in zip(fl, want, slack) if w > 0])
+        bad = [(c, g, w) for c, (g, w, e) in enumerate(zip(fl, want, slack)) if not abs(g - w) <= 1e-9 * abs(w) + 2.0 * e]
         if bad:
             c = bad[0][0]
             colsyms = [rows_by_locus[li][t][c] for t in tips]
@@ -968,11 +1000,11 @@ def _q_circumstance(space, pi_kind, x, y, pars, user):
 
 
 SUBS = [
-    Sub("nuc", execute, strategy=_general_case("nuc"), quick=480, thorough=16 * 1500, shards_quick=16, weight=1.0),
-    Sub("dinuc", execute, strategy=_general_case("dinuc"), quick=96, thorough=16 * 300, shards_quick=16, weight=2.0),
-    Sub("codon", execute, strategy=_general_case("codon"), quick=64, thorough=16 * 200, shards_quick=16, weight=8.0),
-    Sub("protein", execute, strategy=_general_case("protein"), quick=48, thorough=16 * 100, shards_quick=8, weight=2.0),
-    Sub("norm", execute, strategy=_general_case("nuc", allcols=True), quick=96, thorough=16 * 200, shards_quick=8, weight=1.0),
+    Sub("nuc", execute, strategy=_general_case("nuc"), quick=1200, thorough=16 * 1500, shards_quick=16, weight=1.0),
+    Sub("dinuc", execute, strategy=_general_case("dinuc"), quick=240, thorough=16 * 300, shards_quick=8, weight=2.0),
+    Sub("codon", execute, strategy=_general_case("codon"), quick=160, thorough=16 * 200, shards_quick=16, weight=8.0),
+    Sub("protein", execute, strategy=_general_case("protein"), quick=96, thorough=16 * 100, shards_quick=8, weight=2.0),
+    Sub("norm", execute, strategy=_general_case("nuc", allcols=True), quick=240, thorough=16 * 200, shards_quick=8, weight=1.0),
 ]
 
 KNOWN_PREDICATES = {}
